@@ -21,7 +21,13 @@ use std::path::PathBuf;
 pub fn intercept() -> bool {
     let args: Vec<String> = std::env::args().collect();
     if args.len() >= 2 && args[1] == "__verif" {
-        let code = run(&args[2..]);
+        // The harness runs on a thread with a 1 GiB stack: in-process exploration must not depend on how
+        // close a deeply nested (but finite) program comes to the 8 MiB main-thread stack of this machine -
+        // a debug-build worker died of that, irreproducibly, on a U-SCALE program nested 1000 deep. What the
+        // real `fml` process does with deep inputs is C10's business and is measured there with real processes.
+        let rest: Vec<String> = args[2..].to_vec();
+        let code = std::thread::Builder::new().name("verif".into()).stack_size(1 << 30)
+            .spawn(move || run(&rest)).expect("cannot start the harness thread").join().unwrap_or(101);
         std::process::exit(code);
     }
     false
